@@ -84,3 +84,15 @@ Theorem C09_buffer_roundtrip : forall puf allow s x r,
   exists pre rest, x = pre ++ rest /\ export_run r = XOk pre /\ length pre = total_wire (map fst r).
 Proof. intros puf allow s x r. unfold parse_bytes. apply run_reexport. Qed.
 Print Assumptions C09_buffer_roundtrip.
+
+(* non-vacuity of C09_packet_roundtrip / C09_buffer_roundtrip: a V9 template packet followed by
+   a data packet (unsigned values) is reported as two lossless elements whose concatenated
+   re-export is the buffer *)
+Example C09_example :
+  let a := [x00; x09; x00; x01; x00; x00; x00; x01; x00; x00; x00; x02; x00; x00; x00; x03; x00; x00; x00; x04; x00; x00; x00; x0c; x01; x00; x00; x01; x00; x08; x00; x04] in
+  let b := [x00; x09; x00; x01; x00; x00; x00; x01; x00; x00; x00; x02; x00; x00; x00; x05; x00; x00; x00; x04; x01; x00; x00; x08; x01; xbb; x00; x35] in
+  match parse_bytes true (allow_list default_allowed) empty_state (a ++ b) with
+  | Some r => lossless_run empty_state r = true /\ export_run r = XOk (a ++ b) /\ length r = 2%nat
+  | None => False
+  end.
+Proof. vm_compute. repeat split; reflexivity. Qed.
